@@ -163,13 +163,21 @@ def quantile_cases(chk, n):
     import jax.numpy as jnp, numpy as onp
     r = chk.rnd
     levels = [0.001, 0.01, 0.05, 0.25, 0.5, 0.75, 0.9, 0.99, 0.999, 0.9999]
+    last_mix = None
     for _ in range(n):
         kind, p = gen_dist(r)
         if kind == "mix" and r.random() < 0.5: p = (p[0], [abs(m) + 0.2 for m in p[1]], p[2])
+        sibling = False
+        if kind == "mix" and last_mix is not None and r.random() < 0.4:
+            # a sibling of the previous mixture: the same components, different weights, queried in the same process
+            raw = [r.randint(1, 12) for _ in last_mix[1]]
+            p = ([x / sum(raw) for x in raw], last_mix[1], last_mix[2]); sibling = True
+        if kind == "mix": last_mix = p
         sd = build(kind, p)
-        qs = sorted(set(r.sample(levels, 5) + [0.99] + ([1.0] if r.random() < 0.5 else [])))
+        qs = sorted(set(r.sample(levels, 5) + [0.99, 0.5, 0.9] + ([1.0] if r.random() < 0.5 else [])))
+        if sibling: qs = sorted(set(qs + [0.5, 0.9]))
         info = dict(kind=kind, params=p, levels=qs)
-        feats = [kind]
+        feats = [kind] + (["same-components-different-weights"] if sibling else [])
         vals = []
         for q in qs:
             try:
